@@ -231,11 +231,14 @@ def _norm_path(p):
 
 
 def places_overlap(p, q):
+    """does an assignment to place p invalidate a fact that mentions place q?  Yes when q is p or
+    lies inside p.  A fact that mentions a whole object (`pred(arg1, x)`, the check-then-act idiom
+    `if self.can_x(id) { self.field = .. }`) is *not* invalidated by a write to one of its fields."""
     p = _norm_path(p)
     q = _norm_path(q)
     if p == q:
         return True
-    return q.startswith(p + ".") or q.startswith(p + "[") or p.startswith(q + ".") or p.startswith(q + "[")
+    return q.startswith(p + ".") or q.startswith(p + "[")
 
 
 # ---------------------------------------------------------------------------------------------
@@ -462,6 +465,13 @@ class Body:
             if "fn" in op:
                 return ("fnitem", op["fn"])
             ty = op["ty"]
+            if "static" in op:
+                # `&STATIC`: deref is transparent, so the leaf stands for the static's value
+                sc = self.facts.consts.get(op["static"])
+                val = "?"
+                if sc and "bytes_hex" in sc:
+                    val = str(int.from_bytes(bytes.fromhex(sc["bytes_hex"]), "little"))
+                return ("const", val, ty.lstrip("&"), op["static"])
             if "float" in op:
                 v = op["float"]
             elif "int" in op:
@@ -1215,6 +1225,22 @@ class FactsAnalysis:
     @staticmethod
     def _weaker_or_equal(a, b2):
         return True
+
+    def at_loop_entry(self, L):
+        """alternatives holding on the edges that enter loop L from outside"""
+        b = self.b
+        out = set()
+        for p, lab in b.pred[L["header"]]:
+            if p in L["body"] or p not in b.reachable:
+                continue
+            st = self.in_state.get(p)
+            if st is None:
+                continue
+            st = self._apply_kills(st, self.kills[p])
+            e_l = self.edge_lits.get((p, L["header"], lab[1]), []) if lab[0] == "sw" else []
+            for alt in st:
+                out.add(frozenset(alt | set(e_l)) if e_l else alt)
+        return self._reduce(out) if out else None
 
     def at(self, loc):
         """alternatives holding just before location loc (block-entry state; kills by earlier
